@@ -334,6 +334,13 @@ def ge(a, b):
 
 
 def eq(a, b):
+    if isinstance(a, (tuple, list)) and isinstance(b, (tuple, list)):
+        if len(a) != len(b):
+            return False
+        r = True
+        for x, y in zip(a, b):
+            r = land(r, eq(x, y))
+        return r
     if is_bool(a) and is_bool(b):
         if not isz(a) and not isz(b):
             return a == b
